@@ -38,20 +38,357 @@ Proof.
   destruct w as [g v|g v|g v|g v|g v], f as [f|f|f|f]; destruct f, g; reflexivity.
 Qed.
 
-Lemma rebuild_id s : rebuild s = s.
-Proof. destruct s; reflexivity. Qed.
-
+(* a record is determined by its fields *)
+Ltac use_field H f := let E := fresh "E" in pose proof (H f) as E; simpl in E; injection E as E; subst.
+Ltac use_fields H l := match l with ?f :: ?t => use_field H f; use_fields H t | _ => idtac end.
 Lemma settings_ext s s' : (forall f, get f s = get f s') -> s = s'.
 Proof.
-  intros H. rewrite <- (rebuild_id s), <- (rebuild_id s'). unfold rebuild.
-  f_equal;
-  match goal with
-  | |- getN ?f _ = _ => generalize (H (FN f))
-  | |- getB ?f _ = _ => generalize (H (FB f))
-  | |- getS ?f _ = _ => generalize (H (FS f))
-  | |- getL ?f _ = _ => generalize (H (FL f))
-  end; simpl; congruence.
+  intros H. destruct s, s'.
+  let l := eval unfold all_fields in all_fields in use_fields H l.
+  reflexivity.
 Qed.
 
 Lemma all_fields_complete f : In f all_fields.
 Proof. destruct f as [f|f|f|f]; destruct f; simpl; tauto. Qed.
+
+(* ---------- lists of assignments ---------- *)
+Lemma get_apply_writes f ws : forall s, get f (apply_writes ws s) = writes_val f ws (get f s).
+Proof.
+  unfold apply_writes, writes_val. induction ws as [|w ws IH]; intro s; simpl; [reflexivity|].
+  rewrite IH, get_w. reflexivity.
+Qed.
+
+Lemma writes_val_notin f ws : (forall w, In w ws -> w_field w <> f) -> forall v, writes_val f ws v = v.
+Proof.
+  unfold writes_val. induction ws as [|w ws IH]; intros H v; simpl; [reflexivity|].
+  rewrite field_beq_neq by (intro E; apply (H w (or_introl eq_refl)); auto).
+  apply IH. intros w' Hw'. apply H. right. exact Hw'.
+Qed.
+
+(* every assignment of an option is on a field of the object it type-asserts *)
+Lemma writes_target o w : In w (opt_writes o) -> field_obj (w_field w) = opt_target o.
+Proof.
+  destruct o; simpl; try (match goal with r : option _ |- _ => destruct r end; simpl);
+    intros H; repeat (destruct H as [H|H]; [subst w; reflexivity|]); contradiction.
+Qed.
+
+Lemma writes_val_other_obj f o v : field_obj f <> opt_target o -> writes_val f (opt_writes o) v = v.
+Proof.
+  intros H. apply writes_val_notin. intros w Hw E. apply H. rewrite <- E. apply writes_target. exact Hw.
+Qed.
+
+Lemma names_dec o f : {names o f} + {~ names o f}.
+Proof. apply in_dec. apply field_eq_dec. Qed.
+
+Lemma writes_val_unnamed f o v : ~ names o f -> writes_val f (opt_writes o) v = v.
+Proof.
+  intros H. apply writes_val_notin. intros w Hw E. apply H. unfold names. rewrite <- E.
+  apply in_map. exact Hw.
+Qed.
+
+(* only WithSystemTransportOpenArgs appends, and nothing assigns ExtraArgs otherwise *)
+Definition is_app (w : write) : bool := match w with WApp _ _ => true | _ => false end.
+
+Lemma app_only_extra o w : In w (opt_writes o) -> is_app w = true -> w_field w = FL FExtraArgs.
+Proof.
+  destruct o; simpl; try (match goal with r : option _ |- _ => destruct r end; simpl);
+    intros H; repeat (destruct H as [H|H]; [subst w; simpl; intro; (reflexivity || discriminate)|]); contradiction.
+Qed.
+
+Lemma extra_only_app o w : In w (opt_writes o) -> w_field w = FL FExtraArgs -> is_app w = true.
+Proof.
+  destruct o; simpl; try (match goal with r : option _ |- _ => destruct r end; simpl);
+    intros H; repeat (destruct H as [H|H]; [subst w; simpl; intro; (reflexivity || discriminate)|]); contradiction.
+Qed.
+
+(* ---------- one pass ---------- *)
+Definition fail_on (ob : obj) (o : opt) : option oerr :=
+  if negb (pre_ok o) then Some EBadOption
+  else if obj_beq (opt_target o) ob then post_err o else None.
+
+Lemma apply_on_char ob o s :
+  apply_on ob o s = match fail_on ob o with
+                    | Some e => Err e
+                    | None => Ok (if obj_beq (opt_target o) ob then apply_writes (opt_writes o) s else s)
+                    end.
+Proof.
+  unfold apply_on, fail_on. destruct (pre_ok o); simpl; [|reflexivity].
+  destruct (obj_beq (opt_target o) ob); [|reflexivity]. destruct (post_err o); reflexivity.
+Qed.
+
+Lemma pass_app ob l1 l2 : forall s, pass ob (l1 ++ l2) s = bind (pass ob l1 s) (pass ob l2).
+Proof.
+  induction l1 as [|o l1 IH]; intro s; simpl; [reflexivity|].
+  destruct (apply_on ob o s); simpl; auto.
+Qed.
+
+Lemma pass_no_panic ob opts : forall s, pass ob opts s <> Panic.
+Proof.
+  induction opts as [|o t IH]; intro s; simpl; [discriminate|].
+  rewrite apply_on_char. destruct (fail_on ob o); simpl; [discriminate|apply IH].
+Qed.
+
+Lemma pass_ok_char ob opts : forall s s', pass ob opts s = Ok s' -> forall o, In o opts -> fail_on ob o = None.
+Proof.
+  induction opts as [|o t IH]; intros s s' H o' Hin; simpl in *; [contradiction|].
+  rewrite apply_on_char in H. destruct (fail_on ob o) eqn:F; simpl in H; [discriminate|].
+  destruct Hin as [<-|Hin]; [exact F|]. eapply IH; eauto.
+Qed.
+
+Lemma pass_ok_intro ob opts : (forall o, In o opts -> fail_on ob o = None) -> forall s, exists s', pass ob opts s = Ok s'.
+Proof.
+  induction opts as [|o t IH]; intros H s; simpl; [eauto|].
+  rewrite apply_on_char, (H o (or_introl eq_refl)); simpl. apply IH. intros o' Ho'. apply H. right. exact Ho'.
+Qed.
+
+Lemma pass_err_char ob opts : forall s e, pass ob opts s = Err e -> exists o, In o opts /\ fail_on ob o = Some e.
+Proof.
+  induction opts as [|o t IH]; intros s e H; simpl in *; [discriminate|].
+  rewrite apply_on_char in H. destruct (fail_on ob o) eqn:F; simpl in H.
+  - inversion H; subst. exists o. auto.
+  - destruct (IH _ _ H) as (o' & Hin & Ho'). exists o'. auto.
+Qed.
+
+(* the state after a successful pass: the fields of that object hold the fold of the list's
+   assignments to them, every other field is untouched *)
+Lemma pass_get ob f opts : forall s s', pass ob opts s = Ok s' ->
+  get f s' = if obj_beq (field_obj f) ob then raw_val f opts (get f s) else get f s.
+Proof.
+  unfold raw_val. induction opts as [|o t IH]; intros s s' H; simpl in *.
+  - inversion H; subst. destruct (obj_beq (field_obj f) ob); reflexivity.
+  - rewrite apply_on_char in H. destruct (fail_on ob o); simpl in H; [discriminate|].
+    rewrite (IH _ _ H). destruct (obj_beq (opt_target o) ob) eqn:T.
+    + rewrite get_apply_writes. destruct (obj_beq (field_obj f) ob) eqn:F; [reflexivity|].
+      apply writes_val_other_obj. apply obj_beq_true in T. apply obj_beq_false in F. congruence.
+    + destruct (obj_beq (field_obj f) ob) eqn:F; [|reflexivity].
+      rewrite writes_val_other_obj; [reflexivity|].
+      apply obj_beq_true in F. apply obj_beq_false in T. congruence.
+Qed.
+
+(* ---------- several passes ---------- *)
+Lemma passes_no_panic c obs opts : forall s, passes c obs opts s <> Panic.
+Proof.
+  induction obs as [|ob t IH]; intro s; simpl; [discriminate|].
+  unfold pass_if. destruct (exists_obj c ob); simpl; [|apply IH].
+  destruct (pass ob opts s) eqn:P; simpl; [apply IH|discriminate|]. exfalso. exact (pass_no_panic _ _ _ P).
+Qed.
+
+Lemma passes_ok_char c obs opts : forall s s', passes c obs opts s = Ok s' ->
+  forall ob, In ob obs -> exists_obj c ob = true -> forall o, In o opts -> fail_on ob o = None.
+Proof.
+  induction obs as [|ob t IH]; intros s s' H ob' Hin Hex o Ho; simpl in *; [contradiction|].
+  unfold pass_if in H. destruct Hin as [<-|Hin].
+  - rewrite Hex in H. destruct (pass ob opts s) eqn:P; simpl in H; try discriminate.
+    eapply pass_ok_char; eauto.
+  - destruct (exists_obj c ob).
+    + destruct (pass ob opts s) eqn:P; simpl in H; try discriminate. eapply IH; eauto.
+    + simpl in H. eapply IH; eauto.
+Qed.
+
+Lemma passes_ok_intro c obs opts :
+  (forall ob, In ob obs -> exists_obj c ob = true -> forall o, In o opts -> fail_on ob o = None) ->
+  forall s, exists s', passes c obs opts s = Ok s'.
+Proof.
+  induction obs as [|ob t IH]; intros H s; simpl; [eauto|].
+  unfold pass_if. destruct (exists_obj c ob) eqn:E.
+  - destruct (pass_ok_intro ob opts (H ob (or_introl eq_refl) E) s) as [s1 ->]. simpl.
+    apply IH. intros ob' Hin. apply H. right. exact Hin.
+  - simpl. apply IH. intros ob' Hin. apply H. right. exact Hin.
+Qed.
+
+Lemma passes_err_char c obs opts : forall s e, passes c obs opts s = Err e ->
+  exists ob o, In ob obs /\ exists_obj c ob = true /\ In o opts /\ fail_on ob o = Some e.
+Proof.
+  induction obs as [|ob t IH]; intros s e H; simpl in *; [discriminate|].
+  unfold pass_if in H. destruct (exists_obj c ob) eqn:E.
+  - destruct (pass ob opts s) eqn:P; simpl in H.
+    + destruct (IH _ _ H) as (ob' & o & ? & ? & ? & ?). exists ob', o. auto.
+    + inversion H; subst. destruct (pass_err_char _ _ _ _ P) as (o & ? & ?). exists ob, o. auto.
+    + discriminate.
+  - simpl in H. destruct (IH _ _ H) as (ob' & o & ? & ? & ? & ?). exists ob', o. auto.
+Qed.
+
+Lemma passes_get c f opts obs : NoDup obs -> forall s s', passes c obs opts s = Ok s' ->
+  get f s' = if existsb (obj_beq (field_obj f)) obs && exists_obj c (field_obj f)
+             then raw_val f opts (get f s) else get f s.
+Proof.
+  induction obs as [|ob t IH]; intros ND s s' H; simpl in *.
+  - inversion H; reflexivity.
+  - apply NoDup_cons_iff in ND. destruct ND as [Hnot ND]. unfold pass_if in H.
+    destruct (obj_beq (field_obj f) ob) eqn:F; simpl.
+    + assert (Fe : field_obj f = ob) by (apply obj_beq_true; exact F).
+      assert (existsb (obj_beq (field_obj f)) t = false) as Hn.
+      { destruct (existsb (obj_beq (field_obj f)) t) eqn:X; [|reflexivity]. exfalso. apply Hnot.
+        apply existsb_exists in X. destruct X as (x & Hx & Ex). apply obj_beq_true in Ex. congruence. }
+      destruct (exists_obj c ob) eqn:E.
+      * destruct (pass ob opts s) as [s1| |] eqn:P; simpl in H; try discriminate.
+        rewrite (IH ND _ _ H), Hn. simpl. rewrite (pass_get _ f _ _ _ P), F.
+        rewrite Fe, E. reflexivity.
+      * simpl in H. rewrite (IH ND _ _ H), Hn. simpl. rewrite Fe, E. reflexivity.
+    + destruct (exists_obj c ob) eqn:E.
+      * destruct (pass ob opts s) as [s1| |] eqn:P; simpl in H; try discriminate.
+        rewrite (IH ND _ _ H). rewrite (pass_get _ f _ _ _ P), F. reflexivity.
+      * simpl in H. apply (IH ND _ _ H).
+Qed.
+
+(* ---------- the one-fold view ---------- *)
+Lemma raw_settled_get_gen f opts : forall s,
+  get f (fold_left (fun s o => apply_writes (opt_writes o) s) opts s) = raw_val f opts (get f s).
+Proof.
+  unfold raw_val. induction opts as [|o t IH]; intro s; simpl; [reflexivity|].
+  rewrite IH, get_apply_writes. reflexivity.
+Qed.
+
+Lemma raw_settled_get f opts : get f (raw_settled opts) = raw_val f opts (get f defaults).
+Proof. apply raw_settled_get_gen. Qed.
+
+Lemma settled_get_gen c f opts : forall s,
+  get f (fold_left (fun s o => if exists_obj c (opt_target o) then apply_writes (opt_writes o) s else s) opts s)
+  = if exists_obj c (field_obj f) then raw_val f opts (get f s) else get f s.
+Proof.
+  unfold raw_val. induction opts as [|o t IH]; intro s; simpl.
+  - destruct (exists_obj c (field_obj f)); reflexivity.
+  - rewrite IH. destruct (exists_obj c (opt_target o)) eqn:T.
+    + rewrite get_apply_writes. destruct (exists_obj c (field_obj f)) eqn:F; [reflexivity|].
+      apply writes_val_other_obj. intro E. rewrite E in F. congruence.
+    + destruct (exists_obj c (field_obj f)) eqn:F; [|reflexivity].
+      rewrite writes_val_other_obj; [reflexivity|]. intro E. rewrite E in F. congruence.
+Qed.
+
+Lemma settled_get c f opts :
+  get f (settled c opts) = if exists_obj c (field_obj f) then raw_val f opts (get f defaults) else get f defaults.
+Proof. apply settled_get_gen. Qed.
+
+Definition all_objs : list obj := OGeneric :: OArgs :: later_objs.
+
+Lemma all_objs_nodup : NoDup all_objs.
+Proof. repeat constructor; simpl; intuition discriminate. Qed.
+
+Lemma all_objs_complete ob : In ob all_objs.
+Proof. destruct ob; simpl; tauto. Qed.
+
+Lemma in_all_objs f : existsb (obj_beq (field_obj f)) all_objs = true.
+Proof. destruct (field_obj f); reflexivity. Qed.
+
+(* the three stages of [build] are one [passes] over all objects *)
+Lemma chain_passes c opts s1 s2 s3 :
+  pass OGeneric opts defaults = Ok s1 -> pass OArgs opts s1 = Ok s2 ->
+  passes c later_objs opts s2 = Ok s3 -> passes c all_objs opts defaults = Ok s3.
+Proof.
+  intros P1 P2 P3. unfold all_objs. cbn [passes]. unfold pass_if at 1. cbn [exists_obj]. rewrite P1.
+  cbn [bind]. unfold pass_if at 1. cbn [exists_obj]. rewrite P2. cbn [bind]. exact P3.
+Qed.
+
+Lemma chain_settled c opts s3 : passes c all_objs opts defaults = Ok s3 -> s3 = settled c opts.
+Proof.
+  intros P. apply settings_ext. intro f.
+  rewrite (passes_get c f opts all_objs all_objs_nodup _ _ P), in_all_objs, settled_get. reflexivity.
+Qed.
+
+Lemma ctx_eq k opts s1 s2 :
+  pass OGeneric opts defaults = Ok s1 -> pass OArgs opts s1 = Ok s2 ->
+  mkCtx k (getS FTransportType s1) (negb (getN FUserImpl s2 =? 0)) = ctx_of k opts.
+Proof.
+  intros P1 P2. unfold ctx_of.
+  pose proof (pass_get _ (FS FTransportType) _ _ _ P1) as A.
+  pose proof (pass_get _ (FN FUserImpl) _ _ _ P2) as B.
+  pose proof (pass_get _ (FN FUserImpl) _ _ _ P1) as B1.
+  change (obj_beq (field_obj (FS FTransportType)) OGeneric) with true in A.
+  change (obj_beq (field_obj (FN FUserImpl)) OArgs) with true in B.
+  change (obj_beq (field_obj (FN FUserImpl)) OGeneric) with false in B1.
+  cbv iota in A, B, B1.
+  rewrite B1 in B. rewrite <- raw_settled_get in A, B. unfold get in A, B.
+  congruence.
+Qed.
+
+(* closed form of a successful construction *)
+Definition spec (k : ctor_kind) (opts : list opt) : settings :=
+  let c := ctx_of k opts in derive c (settled c opts).
+Definition valid (k : ctor_kind) (opts : list opt) : bool :=
+  let c := ctx_of k opts in forallb (opt_ok c) opts && net_ok c (settled c opts).
+
+Lemma fail_on_opt_fail c ob o e : exists_obj c ob = true -> fail_on ob o = Some e -> opt_fail c o = Some e.
+Proof.
+  unfold fail_on, opt_fail. intros E. destruct (pre_ok o); simpl; [|auto].
+  destruct (obj_beq (opt_target o) ob) eqn:T; [|discriminate]. apply obj_beq_true in T. rewrite T, E. auto.
+Qed.
+
+Lemma opt_fail_none_on c ob o : exists_obj c ob = true -> opt_fail c o = None -> fail_on ob o = None.
+Proof.
+  intros E H. destruct (fail_on ob o) eqn:F; [|reflexivity].
+  rewrite (fail_on_opt_fail _ _ _ _ E F) in H. discriminate.
+Qed.
+
+Lemma opt_fail_some_on c o e : opt_fail c o = Some e ->
+  exists ob, exists_obj c ob = true /\ fail_on ob o = Some e.
+Proof.
+  unfold opt_fail, fail_on. destruct (pre_ok o); simpl.
+  - destruct (exists_obj c (opt_target o)) eqn:E; [|discriminate]. intros H.
+    exists (opt_target o). rewrite obj_beq_refl. auto.
+  - intros H. exists OGeneric. auto.
+Qed.
+
+Lemma forallb_opt_ok c opts : forallb (opt_ok c) opts = true <-> (forall o, In o opts -> opt_fail c o = None).
+Proof.
+  rewrite forallb_forall. unfold opt_ok. split; intros H o Ho; specialize (H o Ho);
+    destruct (opt_fail c o); congruence.
+Qed.
+
+Theorem build_ok_iff k opts s : build k opts = Ok s <-> valid k opts = true /\ s = spec k opts.
+Proof.
+  unfold valid, spec, build. split.
+  - destruct (pass OGeneric opts defaults) as [s1| |] eqn:P1; cbn [bind]; try discriminate.
+    destruct (pass OArgs opts s1) as [s2| |] eqn:P2; cbn [bind]; try discriminate.
+    rewrite (ctx_eq k opts s1 s2 P1 P2). set (c := ctx_of k opts).
+    destruct (passes c later_objs opts s2) as [s3| |] eqn:P3; cbn [bind]; try discriminate.
+    pose proof (chain_passes c opts s1 s2 s3 P1 P2 P3) as P.
+    rewrite (chain_settled c opts s3 P) in *. unfold finish.
+    destruct (net_ok c (settled c opts)) eqn:NO; [|discriminate]. intros H. inversion H; subst.
+    split; [|reflexivity]. rewrite andb_true_r. apply forallb_opt_ok. intros o Ho.
+    destruct (opt_fail c o) eqn:F; [|reflexivity]. exfalso.
+    destruct (opt_fail_some_on _ _ _ F) as (ob & Hex & Hf).
+    rewrite (passes_ok_char c all_objs opts _ _ P ob (all_objs_complete ob) Hex o Ho) in Hf. discriminate.
+  - set (c := ctx_of k opts). intros [V ->]. apply andb_true_iff in V. destruct V as [V NO].
+    rewrite forallb_opt_ok in V.
+    assert (Hall : forall ob, In ob all_objs -> exists_obj c ob = true -> forall o, In o opts -> fail_on ob o = None).
+    { intros ob _ Hex o Ho. apply (opt_fail_none_on c); auto. }
+    destruct (pass_ok_intro OGeneric opts (Hall OGeneric (all_objs_complete _) eq_refl) defaults) as [s1 P1].
+    destruct (pass_ok_intro OArgs opts (Hall OArgs (all_objs_complete _) eq_refl) s1) as [s2 P2].
+    rewrite P1; cbn [bind]. rewrite P2; cbn [bind]. rewrite (ctx_eq k opts s1 s2 P1 P2). fold c.
+    destruct (passes_ok_intro c later_objs opts (fun ob Hin => Hall ob (all_objs_complete ob)) s2) as [s3 P3].
+    rewrite P3; cbn [bind]. pose proof (chain_passes c opts s1 s2 s3 P1 P2 P3) as P.
+    rewrite (chain_settled c opts s3 P). unfold finish. rewrite NO. reflexivity.
+Qed.
+
+Theorem build_no_panic k opts : build k opts <> Panic.
+Proof.
+  unfold build. destruct (pass OGeneric opts defaults) as [s1| |] eqn:P1; cbn [bind]; try discriminate.
+  2: exact (fun _ => pass_no_panic _ _ _ P1).
+  destruct (pass OArgs opts s1) as [s2| |] eqn:P2; cbn [bind]; try discriminate.
+  2: exact (fun _ => pass_no_panic _ _ _ P2).
+  match goal with |- bind (passes ?c ?l ?o ?s) _ <> _ => destruct (passes c l o s) as [s3| |] eqn:P3 end; cbn [bind]; try discriminate.
+  - unfold finish. match goal with |- (if ?b then _ else _) <> _ => destruct b end; discriminate.
+  - exact (fun _ => passes_no_panic _ _ _ _ P3).
+Qed.
+
+(* an error of [build] is the failure of some option of the list in this construction, or the
+   network driver's final check *)
+Theorem build_err_char k opts e : build k opts = Err e ->
+  (exists o, In o opts /\ opt_fail (ctx_of k opts) o = Some e)
+  \/ (e = EBadOption /\ net_ok (ctx_of k opts) (settled (ctx_of k opts) opts) = false).
+Proof.
+  unfold build. destruct (pass OGeneric opts defaults) as [s1| |] eqn:P1; cbn [bind]; try discriminate.
+  2: { intros H; inversion H; subst. left. destruct (pass_err_char _ _ _ _ P1) as (o & Ho & F).
+       exists o. split; [exact Ho|]. apply (fail_on_opt_fail _ OGeneric); auto. }
+  destruct (pass OArgs opts s1) as [s2| |] eqn:P2; cbn [bind]; try discriminate.
+  2: { intros H; inversion H; subst. left. destruct (pass_err_char _ _ _ _ P2) as (o & Ho & F).
+       exists o. split; [exact Ho|]. apply (fail_on_opt_fail _ OArgs); auto. }
+  rewrite (ctx_eq k opts s1 s2 P1 P2). set (c := ctx_of k opts).
+  destruct (passes c later_objs opts s2) as [s3| |] eqn:P3; cbn [bind]; try discriminate.
+  - pose proof (chain_passes c opts s1 s2 s3 P1 P2 P3) as P.
+    rewrite (chain_settled c opts s3 P). unfold finish.
+    destruct (net_ok c (settled c opts)) eqn:NO; [discriminate|]. intros H; inversion H. right. auto.
+  - intros H; inversion H; subst. left.
+    destruct (passes_err_char _ _ _ _ _ P3) as (ob & o & _ & Hex & Ho & F).
+    exists o. split; [exact Ho|]. apply (fail_on_opt_fail _ ob); auto.
+Qed.
